@@ -7,7 +7,7 @@ Terms are nested tuples:
   ("binop", op, a, b) ("unop", op, a) ("discr", t) ("agg", kind, (ops..))
   ("call", callee_def, (args..), (generic args..), bb, resolved_def)
 """
-import collections, glob, json, os, sys
+import collections, glob, json, os, re, sys
 
 sys.setrecursionlimit(10000)
 
@@ -439,6 +439,9 @@ class Body:
             if "str" in op:
                 return ("str", op["str"])
             if "tyconst" in op:
+                m = re.match(r"^(-?\d+)_[iu](?:size|\d+)$", op["tyconst"])      # a literal in a range pattern (`0..=9`)
+                if m:
+                    return ("int", int(m.group(1)))
                 return ("tyconst", op["tyconst"])
             if "static" in op:
                 return ("ref", ("static", op["static"]))
